@@ -132,9 +132,22 @@ func NewRTUClient() *Client {
 // NewRTUClientWithConfig creates new instance of Modbus Client for Modbus RTU protocol with given configuration options
 func NewRTUClientWithConfig(conf ClientConfig) *Client {
 	client := defaultClient(conf)
-	client.asProtocolErrorFunc = packet.AsRTUErrorPacket
+	client.asProtocolErrorFunc = asRTUErrorPacketWithCRC
 	client.parseResponseFunc = packet.ParseRTUResponseWithCRC
 	return client
+}
+
+// asRTUErrorPacketWithCRC converts raw bytes read from the wire to Modbus RTU error response only when their CRC is valid.
+// Bytes with invalid CRC are not an error packet - these could be corrupted data or start of (corrupted) regular packet
+// and must not be reported to the user as exception sent by the device.
+func asRTUErrorPacketWithCRC(data []byte) error {
+	if len(data) != 5 {
+		return nil
+	}
+	if packet.CRC16(data[0:3]) != uint16(data[3])|uint16(data[4])<<8 {
+		return nil
+	}
+	return packet.AsRTUErrorPacket(data)
 }
 
 // NewClient creates new instance of Modbus Client with given configuration options
